@@ -599,6 +599,10 @@ package gohbase
 // while the server has more rows of this region the position does not move
 //@   ensures[C06] resp.GetMoreResultsInRegion() ==> sameslice(s.startRow, old(s.startRow))
 //@   ensures[C06,C14] !resp.GetMoreResultsInRegion() ==> s.curRegionScannerID == 18446744073709551615
+// ... and only then: while the server has more rows of this region, its scanner stays the current one - it is the one Close
+// has to release on the server (C14), also when the same response ends the whole scan (more_results = false)
+//@   ensures[C14] resp.GetMoreResultsInRegion() && old(s.curRegionScannerID) != 18446744073709551615 ==> s.curRegionScannerID == old(s.curRegionScannerID)
+//@   ensures[C14] resp.GetMoreResultsInRegion() && old(s.curRegionScannerID) == 18446744073709551615 && resp.ScannerId != nil ==> s.curRegionScannerID == *resp.ScannerId
 // forward: the next region scan starts at this region's stop key - no gap, no overlap
 //@   ensures[C06] !resp.GetMoreResultsInRegion() && !s.rpc.Reversed() ==> sameslice(s.startRow, region.StopKey())
 // reversed: the closest key before this region's start key: drop a trailing 0x00, else decrement the last byte and pad with
